@@ -9,7 +9,7 @@
 (*   <<"VIOL", line, scenario, index, tag, finding>>   and  <<"HITS", f>>.  *)
 (* The property to check is selected with the environment variable ONLY.    *)
 (***************************************************************************)
-EXTENDS Findings, Json, IOUtils
+EXTENDS Findings, Conf, Json, IOUtils
 
 Rec  == ndJsonDeserialize(IOEnv.TRACE)
 Only == IOEnv.ONLY
@@ -41,9 +41,13 @@ TraceStep ==
              /\ hits' = Bump(hits, {"events", "scenarios"})
              /\ nviol' = nviol
              /\ keys' = keys
-        ELSE LET bad == Violations(Only, S, e, T, aux)
-                 ant == Antecedents(Only, S, e, T, aux)
+        ELSE LET bad == IF Only = "CONF" THEN {} ELSE Violations(Only, S, e, T, aux)
+                 ant == IF Only = "CONF"
+                        THEN (IF e.kind = "block" \/ Modelled(S, e) THEN {"modelled", e.tx.m} ELSE {"unmodelled"})
+                        ELSE Antecedents(Only, S, e, T, aux)
+                 drift == IF Only = "CONF" THEN DriftOf(S, e, T) ELSE {}
              IN /\ Report(l + 1, e, bad, S, T)
+                /\ \A d \in drift : PrintT(<<"DRIFT", l + 1, e.scn, e.i, d, e.tx.m>>)
                 /\ aux' = AuxNext(aux, S, e, T)
                 /\ hits' = Bump(hits, ant \cup {"events"})
                 /\ nviol' = nviol + Cardinality(bad)
